@@ -593,10 +593,10 @@ def gen_cookie_scripts(tier, seed):
                "hosts": [["H1", ":", "PA"]] if sel == "roundrobin" else [["H1", ":", "PA"], ["H1", ":", "PB"]], "verifyIp": True, "idle": 0}
         for tr in ("ws", "legacy"):
             for rep in range(3 if tier == "quick" else 12):
-                for cls in ("valid", "short"):
+                for cls in ("valid", "short", "wide"):
                     steps = [{"k": "hs", "cls": "valid", "caps": 2, "major": 1, "minor": 0}, {"k": "create", "cls": cls, "cookie": "good"},
                              {"k": "auth", "cls": "valid"}, {"k": "chan", "cls": "valid", "name": ["H1"], "port": "PA"}]
-                    scripts.append({"id": "k%05d-%s" % (n, "announced" if cls == "short" else "before"), "origin": "cookie:announced", "cfg": cfg, "transport": tr,
+                    scripts.append({"id": "k%05d-%s" % (n, {"short": "announced", "wide": "wide"}.get(cls, "before")), "origin": "cookie:announced", "cfg": cfg, "transport": tr,
                                     "tun": dict(H_A, user="user1"), "steps": steps, "grp": "ann-%s-%s" % (sel, tr)})
                     n += 1
     scripts += gen_tokenauth_other_mechanism_scripts(tier, seed)
